@@ -42,6 +42,20 @@
 (*              subtract the total (DEVIATION: not equal to k single       *)
 (*              steps for unequal powers)                                  *)
 (*   "fixed" -- the designed algorithm: k times the single step            *)
+(*                                                                         *)
+(* Bounded instances (all of this module):                                 *)
+(*   ValSet.cfg, ValSetBig.cfg            rotation cycles and twins        *)
+(*   ValSetMods.cfg, ValSetModsBig.cfg,   Add / Update / Remove /          *)
+(*   ValSetMods2.cfg                      updateStatus with changed lists  *)
+(*   ValSetClip.cfg, ValSetClipBig.cfg,   a 5- or 6-bit machine on which   *)
+(*   ValSetClipMods.cfg                   totals and priorities clip       *)
+(*   ValSetAsCoded.cfg                    IncAlgo = "coded": TLC reports   *)
+(*                                        PathIndependence violated        *)
+(*                                                                         *)
+(* Idiom: `\A x \in {e} : P(x)` and `CHOOSE r \in {f(x) : x \in {e}} : TRUE` *)
+(* bind the value of e once.  (TLC re-evaluates an operator application    *)
+(* every time its result is indexed or passed on unevaluated, which makes  *)
+(* a window of 20 rotation steps take minutes instead of milliseconds.)    *)
 (***************************************************************************)
 EXTENDS Integers, Sequences, FiniteSets, TLC, Json
 
@@ -124,8 +138,6 @@ Step(s) == LET tot == Total(s)
                vs  == Bump(s.vals, 1)
                m   == MaxIdx(vs)
            IN  [s EXCEPT !.vals = [vs EXCEPT ![m].a = SubClip(@, tot)], !.prop = vs[m].addr, !.tvp = tot]
-\* (binding each intermediate set through a singleton makes TLC compute it once: an operator
-\* argument is otherwise re-evaluated wherever the callee mentions it)
 RECURSIVE Walk(_, _)
 Walk(s, n) == IF n = 0 THEN s ELSE CHOOSE r \in {Walk(t, n - 1) : t \in {Step(s)}} : TRUE
 IncFixed(s, k) == Walk(s, k)
@@ -190,7 +202,8 @@ ApplyUpdates(s, us) == IF us = <<>> THEN s ELSE ApplyUpdates(ApplyOne(s, Head(us
 RECURSIVE AscSeq(_)
 AscSeq(S) == IF S = {} THEN <<>>
              ELSE LET x == CHOOSE x \in S : \A y \in S : x <= y IN <<x>> \o AscSeq(S \ {x})
-\* application output / genesis lists: distinct addresses, Accum 0, ascending (the harness permutes)
+\* application output / genesis lists: distinct addresses, ascending (the harness permutes them);
+\* the Accum they carry is 0 unless a configuration widens ArgAccums
 ListsOver(S) == {[i \in 1..Len(AscSeq(S)) |-> Val(AscSeq(S)[i], f[AscSeq(S)[i]][1], f[AscSeq(S)[i]][3], f[AscSeq(S)[i]][2])] :
                    f \in [S -> Powers \X Coinbases \X ArgAccums]}
 NewLists == UNION {ListsOver(S) : S \in {T \in SUBSET Addr : Cardinality(T) \in NewSizes}}
@@ -215,8 +228,8 @@ Init == /\ A = Dead /\ B = Dead /\ twin = FALSE /\ d = 0 /\ mods = 0
         /\ last = [op |-> "init"]
 
 \* what the deviating algorithm would have produced (lets the harness classify a mismatch)
-CodedView(s, k) == LET c == IncCoded(s, k) IN
-                   [acc |-> [i \in 1..Len(c.vals) |-> c.vals[i].a], gp |-> GetProposer(c)]
+CodedView(s, k) == CHOOSE v \in {[acc |-> [i \in 1..Len(c.vals) |-> c.vals[i].a], gp |-> GetProposer(c)] :
+                                    c \in {IncCoded(s, k)}} : TRUE
 
 New(l) == /\ "new" \in Ops /\ ~A.live
           /\ A' = NewValidatorSet(l) /\ UNCHANGED <<B, twin, d, mods>>
@@ -236,11 +249,11 @@ IncB(k) == /\ "inc" \in Ops /\ B.live /\ Len(B.vals) > 0 /\ twin   \* a stale B 
 Structural(res, lab) == /\ A.live /\ ~B.live /\ mods < MaxMods
                         /\ A' = res.set /\ mods' = (IF res.ok THEN mods + 1 ELSE mods)
                         /\ UNCHANGED <<B, twin, d>>
-                        /\ last' = lab
-Add(v)    == "add" \in Ops /\ Structural(AddV(A, v), [op |-> "add", v |-> v, res |-> AddV(A, v).ok])
-Update(v) == "update" \in Ops /\ Structural(UpdateV(A, v), [op |-> "update", v |-> v, res |-> UpdateV(A, v).ok])
+                        /\ last' = [lab EXCEPT !.res = res.ok]
+Add(v)    == "add" \in Ops /\ \E r \in {AddV(A, v)} : Structural(r, [op |-> "add", v |-> v, res |-> FALSE])
+Update(v) == "update" \in Ops /\ \E r \in {UpdateV(A, v)} : Structural(r, [op |-> "update", v |-> v, res |-> FALSE])
 Remove(ad) == /\ "remove" \in Ops /\ (Found(A.vals, ad) => Len(A.vals) > 1)
-              /\ Structural(RemoveV(A, ad), [op |-> "remove", addr |-> ad, res |-> RemoveV(A, ad).ok])
+              /\ \E r \in {RemoveV(A, ad)} : Structural(r, [op |-> "remove", addr |-> ad, res |-> FALSE])
 
 Copy  == /\ "copy" \in Ops /\ A.live /\ ~(twin /\ d = 0)
          /\ B' = CopyOf(A) /\ twin' = TRUE /\ d' = 0 /\ UNCHANGED <<A, mods>>
@@ -253,7 +266,7 @@ Drop  == /\ ("copy" \in Ops \/ "ustat" \in Ops) /\ B.live
          /\ last' = [op |-> "drop"]
 
 UStat(l) == /\ "ustat" \in Ops /\ A.live /\ Len(A.vals) > 0
-            /\ LET u == UpdateStatus(A, l) IN
+            /\ \E u \in {UpdateStatus(A, l)} :
                  /\ u.changed => mods < MaxMods
                  /\ ~u.changed => CanAge(A, 1)
                  /\ A' = (IF u.changed THEN u.next ELSE Aged(u.next, 1)) /\ B' = u.lastv
@@ -303,12 +316,20 @@ Witness(s, k, c) == PrintT(ToJson([lead |-> "PathIndependence",
                                    composed |-> [acc |-> [i \in 1..Len(s.vals) |-> IncAll(s, c).vals[i].a],
                                                  gp |-> GetProposer(IncAll(s, c))]]))
 PathIndependence ==
-  \A s \in Holders : \A k \in 1..MaxK : \A c \in Comps(k) :
-     SameRot(IncAll(s, c), Inc(s, k)) \/ (Witness(s, k, c) /\ FALSE)
+  \A s \in Holders : \A k \in 1..MaxK : \A c \in Comps(k) : \A x \in {IncAll(s, c)}, y \in {Inc(s, k)} :
+     SameRot(x, y) \/ (Witness(s, k, c) /\ FALSE)
 
 \* the same at the level of the two holders: twins that made the same number of rotations --
 \* in whatever portions -- are in the same state; a twin that is behind catches up by walking
-TwinAgreement == twin => IF d >= 0 THEN SameRot(Walk(A, d), B) ELSE SameRot(Walk(B, -d), A)
+TwinAgreement == twin => IF d >= 0 THEN \A x \in {Walk(A, d)} : SameRot(x, B)
+                                   ELSE \A x \in {Walk(B, -d)} : SameRot(x, A)
+
+\* the fault-evidence code (getLastFaultValsInfo, checkFaultValEvidence, VerifyFaultValEvidence)
+\* recomputes the proposer of round r from the previous height's set with ONE call
+\* IncrementAccum(r); the nodes that were in round r got there by enterNewRound, in portions
+EvidenceProposerAgrees ==
+  \A s \in Holders : \A r \in 1..MaxK : \A x \in {Inc(CopyOf(s), r)}, y \in {Walk(s, r)} :
+     GetProposer(x) = GetProposer(y)
 
 \* one call with k = 1 is the single step under both algorithms (per-block rotation unaffected)
 Inc1Agree == \A s \in Holders : IncCoded(s, 1) = IncFixed(s, 1)
@@ -322,13 +343,11 @@ NoClip(s) == \A i \in 1..Len(s.vals) : AbsV(s.vals[i].a) + (MaxK + 2) * SumExact
 RECURSIVE Proposers(_, _)      \* the proposers of the next n single steps
 Proposers(s, n) == IF n = 0 THEN <<>>
                    ELSE CHOOSE r \in {<<t.prop>> \o Proposers(t, n - 1) : t \in {Step(s)}} : TRUE
-Proportional ==
-  \A s \in Holders : (s.rot /\ NoClip(s)) =>
-     LET T == SumExact(s)
-         w == Proposers(s, T)
-         e == Walk(s, T)
-     IN  /\ \A j \in 1..Len(s.vals) : Cardinality({i \in 1..T : w[i] = s.vals[j].addr}) = s.vals[j].p
-         /\ \A j \in 1..Len(s.vals) : e.vals[j].a = s.vals[j].a
+WindowOK(s) ==
+  \A T \in {SumExact(s)} : \A w \in {Proposers(s, T)}, e \in {Walk(s, T)} :
+      /\ \A j \in 1..Len(s.vals) : Cardinality({i \in 1..T : w[i] = s.vals[j].addr}) = s.vals[j].p
+      /\ \A j \in 1..Len(s.vals) : e.vals[j].a = s.vals[j].a
+Proportional == \A s \in Holders : (s.rot /\ NoClip(s)) => WindowOK(s)
 \* rotation neither creates nor destroys priority; a rotated-only set sums to zero and no
 \* priority reaches the total
 SumAcc(s) == LET RECURSIVE Sm(_)
@@ -336,11 +355,11 @@ SumAcc(s) == LET RECURSIVE Sm(_)
              IN  Sm(Len(s.vals))
 Conservation ==
   \A s \in Holders : NoClip(s) =>
-     /\ \A k \in 1..MaxK : SumAcc(Inc(s, k)) = SumAcc(s)
+     /\ \A k \in 1..MaxK : \A t \in {Inc(s, k)} : SumAcc(t) = SumAcc(s)
      /\ s.rot => (SumAcc(s) = 0 /\ \A i \in 1..Len(s.vals) : AbsV(s.vals[i].a) < SumExact(s))
 
 \* identity
-HashIgnoresAccum == \A s \in Holders : \A k \in 1..MaxK : Hash(Inc(s, k)) = Hash(s)
+HashIgnoresAccum == \A s \in Holders : \A k \in 1..MaxK : \A t \in {Inc(s, k)} : Hash(t) = Hash(s)
 HashStable == [][ /\ last'.op \in {"inc", "copy", "drop"} => Hash(A') = Hash(A)
                   /\ last'.op = "inc" => Hash(B') = Hash(B)
                   /\ last'.op = "copy" => Hash(B') = Hash(A)
@@ -354,8 +373,8 @@ ChangeLists(n) == UNION {{[i \in 1..n |-> Val(AscSeq(S)[i], f[AscSeq(S)[i]], 0, 
                             f \in [S -> Powers \cup {0}]} : S \in {T \in SUBSET Addr : Cardinality(T) = n}}
 UpdateOrderIndependent ==
   (A.live /\ ~B.live /\ A.age = 0) => \A n \in 2..MinV(NAddr, ChangeMax) : \A l \in ChangeLists(n) : \A p \in Perms(l) :
-     LET r1 == ApplyUpdates(A, l)  r2 == ApplyUpdates(A, [i \in 1..n |-> l[p[i]]])
-     IN  r1.vals = r2.vals /\ GetProposer(r1) = GetProposer(r2)
+     \A r1 \in {ApplyUpdates(A, l)}, r2 \in {ApplyUpdates(A, [i \in 1..n |-> l[p[i]]])} :
+         r1.vals = r2.vals /\ GetProposer(r1) = GetProposer(r2)
 \* the next set is a function of (current set, application output) only
 UpdateStatusRule ==
   [][last'.op = "ustat" =>
@@ -370,7 +389,7 @@ UpdateStatusRule ==
 Saturates ==
   \A s \in Holders :
      /\ Total(s) = MinV(SumExact(s), MaxI)
-     /\ LET t == Step(s) IN \A i \in 1..Len(s.vals) :
+     /\ \A t \in {Step(s)} : \A i \in 1..Len(s.vals) :
           /\ InRange(t.vals[i].a)
           /\ t.vals[i].addr # t.prop => t.vals[i].a >= s.vals[i].a
           /\ t.vals[i].addr = t.prop => t.vals[i].a <= AddClip(s.vals[i].a, s.vals[i].p)
